@@ -723,7 +723,9 @@ fn check_templates(seed: u64, n: u64, rep: &mut Report) {
             for (alias, im, sym) in &ns.imports {
                 rep.count("imports_checked", 1);
                 if !all_ns.get(im).is_some_and(|t| t.decls.iter().any(|d| &d.0 == sym)) {
-                    rep.violations.push(Violation { sig: "c18|import-of-undeclared-symbol".into(), what: format!("{}: import {alias} = {im}.{sym} names nothing that {im} declares [{origin}]", ns.name), replay: json!({"origin": origin, "sources": srcs}) });
+                    // spec-side fact: the imported symbol is a parameterized type (only its instances are declared)
+                    let parameterized = srcs.iter().flat_map(|s| s.lines()).any(|l| l.trim_start().split_once('{').is_some_and(|(n, rest)| n.trim() == sym.as_str() && rest.split_once('}').is_some_and(|(_, a)| a.trim_start().starts_with("::="))));
+                    rep.violations.push(Violation { sig: format!("c18|import-of-undeclared-symbol{}", if parameterized { "|parameterized-type" } else { "" }), what: format!("{}: import {alias} = {im}.{sym} names nothing that {im} declares [{origin}]", ns.name), replay: json!({"origin": origin, "sources": srcs}) });
                 }
             }
             for (dn, d) in &ns.decls {
